@@ -4,7 +4,8 @@ CONSTANTS
   KindSets = {}
   Inits = {}
   MaxLen = 0
-  MaxChanges = 1
+  MaxChanges = 2
+  MaxUser = 1
   AfterChange = "rereg_only"
   ReEnable = TRUE
   Variants = {}
